@@ -390,6 +390,9 @@ def build_case(ctx, kind, r, small):
             ctx.count("entered_through_igraph_object")
             eorder = r.permutation(len(edges0))
 
+        from pvm.gen.held import as_flag
+        dflag = as_flag(r, directed)
+
         def make(p):
             Ap = A[np.ix_(p, p)]
             if via_igraph:
@@ -415,7 +418,7 @@ def build_case(ctx, kind, r, small):
                             directed=directed, node_weights=w[p],
                             silence_level=3)
                 else:
-                    o = cls(adjacency=Ap, directed=directed,
+                    o = cls(adjacency=Ap, directed=dflag,
                             node_weights=w[p], silence_level=3)
             if W is not None:
                 o.set_link_attribute("w", W[np.ix_(p, p)])
